@@ -531,4 +531,108 @@ func C07(run *vf.Run) {
 	run.Extra["configurations_accepted"] = accepted
 	run.Extra["configurations_rejected_with_error"] = rejected
 	_ = bytes.MinRead
+	c07Deep(run)
+}
+
+// c07Deep: "returns normally" includes "in time": documents of a few ten kilobytes that nest, repeat or
+// enumerate as deeply as their size allows (arrays in arrays, objects in objects, elements in elements,
+// thousands of arguments / parts / cookies) are pushed through both body directions; a single call that has
+// not returned after 5 s on such an input is a hang.
+func c07Deep(run *vf.Run) {
+	n := 32000
+	shapes := []struct{ name, ct, body string }{
+		{"json-arrays", "application/json", strings.Repeat("[", n) + strings.Repeat("]", n)},
+		{"json-objects", "application/json", strings.Repeat(`{"a":`, n/3) + "1" + strings.Repeat("}", n/3)},
+		{"json-arrays-in-object", "application/json", `{"a":` + strings.Repeat("[", n) + strings.Repeat("]", n) + "}"},
+		{"json-mixed", "application/json", strings.Repeat(`[{"a":`, n/4) + "1" + strings.Repeat("}]", n/4)},
+		{"json-wide", "application/json", "[" + strings.Repeat("[],", n/2) + "[]]"},
+		{"xml-nested", "text/xml", strings.Repeat("<a>", n/2) + strings.Repeat("</a>", n/2)},
+		{"xml-attrs", "text/xml", "<a " + func() string {
+			var sb strings.Builder
+			for i := 0; i < n/8; i++ {
+				fmt.Fprintf(&sb, "k%d=\"v\" ", i)
+			}
+			return sb.String()
+		}() + "/>"},
+		{"urlencoded-many", "application/x-www-form-urlencoded", strings.Repeat("a=1&", n/2)},
+		{"urlencoded-escapes", "application/x-www-form-urlencoded", "a=" + strings.Repeat("%25", n)},
+		{"multipart-many", "multipart/form-data; boundary=b", strings.Repeat("--b\r\nContent-Disposition: form-data; name=\"a\"\r\n\r\nv\r\n", n/40) + "--b--\r\n"},
+	}
+	cfgs := []struct{ name, text string }{
+		{"request", "SecRuleEngine On\nSecRequestBodyAccess On\nSecRule ARGS|XML:/* \"@rx zzz\" \"id:1,phase:2,pass\"\n"},
+		{"request-depth-limit-high", "SecRuleEngine On\nSecRequestBodyAccess On\nSecRequestBodyJsonDepthLimit 100000\nSecRule ARGS \"@rx zzz\" \"id:1,phase:2,pass\"\n"},
+		{"response", "SecRuleEngine On\nSecResponseBodyAccess On\nSecResponseBodyMimeType application/json text/xml\nSecRule RESPONSE_HEADERS:content-type \"@contains json\" \"id:2,phase:3,pass,ctl:responseBodyProcessor=JSON\"\nSecRule RESPONSE_HEADERS:content-type \"@contains xml\" \"id:3,phase:3,pass,ctl:responseBodyProcessor=XML\"\nSecRule RESPONSE_ARGS|RESPONSE_XML \"@rx zzz\" \"id:1,phase:4,pass\"\n"},
+	}
+	reported := map[string]bool{}
+	for _, c := range cfgs {
+		w, err := coraza.NewWAF(coraza.NewWAFConfig().WithDirectives(c.text))
+		if err != nil {
+			run.Inconclusive("deep documents: configuration %s rejected: %v", c.name, err)
+			continue
+		}
+		for _, sh := range shapes {
+			if c.name == "response" && !strings.Contains(sh.ct, "json") && !strings.Contains(sh.ct, "xml") {
+				continue
+			}
+			body := sh.body
+			if c.name == "response" && sh.name == "json-arrays" {
+				// far enough beyond the threshold that the verdict does not depend on the load of the machine
+				body = strings.Repeat("[", 2*n) + strings.Repeat("]", 2*n)
+			}
+			done := make(chan string, 1)
+			start := time.Now()
+			go func() {
+				defer func() {
+					if r := recover(); r != nil {
+						done <- fmt.Sprint("panic: ", r)
+					}
+				}()
+				tx := w.NewTransaction()
+				tx.ProcessURI("/d", "POST", "HTTP/1.1")
+				if c.name != "response" {
+					tx.AddRequestHeader("Content-Type", sh.ct)
+					tx.ProcessRequestHeaders()
+					_, _, _ = tx.WriteRequestBody([]byte(body))
+					_, _ = tx.ProcessRequestBody()
+				} else {
+					tx.ProcessRequestHeaders()
+					_, _ = tx.ProcessRequestBody()
+					tx.AddResponseHeader("Content-Type", sh.ct)
+					tx.ProcessResponseHeaders(200, "HTTP/1.1")
+					_, _, _ = tx.WriteResponseBody([]byte(body))
+					_, _ = tx.ProcessResponseBody()
+				}
+				tx.ProcessLogging()
+				_ = tx.Close()
+				done <- ""
+			}()
+			verdict := ""
+			select {
+			case verdict = <-done:
+			case <-time.After(5 * time.Second):
+				verdict = fmt.Sprintf("hang: the calls had not returned after 5 s on a body of %d bytes", len(body))
+			}
+			run.Eval("deep-" + c.name + sh.name)
+			run.Logf("deep documents: %s / %s (%d bytes): %.2fs %s", c.name, sh.name, len(sh.body), time.Since(start).Seconds(), verdict)
+			if verdict == "" {
+				continue
+			}
+			kind := "hang"
+			if strings.HasPrefix(verdict, "panic") {
+				kind = "panic"
+			}
+			class := sh.name
+			if i := strings.Index(class, "-"); i > 0 {
+				class = class[:i] // json / xml / urlencoded / multipart: one defect per reader and direction
+			}
+			sig := kind + ":deep-document|" + c.name + "+" + class
+			if reported[sig] {
+				continue
+			}
+			reported[sig] = true
+			run.Violate(vf.Violation{Signature: sig, What: fmt.Sprintf("configuration %s, body shape %s (%s): %s", c.name, sh.name, sh.ct, verdict),
+				Replay: map[string]any{"family": "deep-document", "configuration": c.text, "shape": sh.name, "bytes": len(sh.body)}})
+		}
+		closeAny(w)
+	}
 }
